@@ -475,6 +475,18 @@ def cmdStatic (args : List String) : String :=
     | none => "bad-sexpr"
   | _ => "bad-request"
 
+/-- `rangecheck <sl> <sc> <el> <ec> <len,len,…>`: is the range inside a text with these line lengths, and
+does the renderer model get through -/
+def cmdRangeCheck (args : List String) : String :=
+  match args with
+  | [sl, sc, el, ec, lens] =>
+    let lines : List (List Char) := (if lens == "-" then [] else (lens.splitOn ",").map fun n => List.replicate n.toNat! 'x')
+    let r : DDP.Diag.Range := ⟨⟨sl.toNat!, sc.toNat!⟩, ⟨el.toNat!, ec.toNat!⟩⟩
+    let it := if decide (DDP.Diag.inText lines r) then "1" else "0"
+    let rd := match DDP.Diag.render lines r with | some _ => "some" | none => "none"
+    s!"intext={it} render={rd}"
+  | _ => "bad-request"
+
 def dispatch (line : String) : String :=
   match (line.splitOn " ").filter (· ≠ "") with
   | "scan" :: args => cmdScan args
@@ -501,6 +513,7 @@ def dispatch (line : String) : String :=
   | "resolve" :: args => cmdResolve args
   | "ledger" :: args => cmdLedger args
   | "static" :: args => cmdStatic args
+  | "rangecheck" :: args => cmdRangeCheck args
   | _ => "bad-request"
 
 
